@@ -268,6 +268,30 @@ func checkCharset(c *core.Ctx, fn *ssa.Function, want an.Set, what string) {
 	})
 	if !found {
 		subject = byIndex
+		// no loop of its own: `!strings.ContainsFunc(s, bad)` — every rune must fail bad
+		for _, ci := range calls(fn) {
+			call, isCall := ci.(*ssa.Call)
+			if !isCall || an.CalleeName(&call.Call) != "strings.ContainsFunc" || an.PathOf(call.Call.Args[0]) != paramPath(fn, 0) {
+				continue
+			}
+			pred := funcValue(call.Call.Args[1])
+			if pred == nil || len(pred.Params) != 1 {
+				continue
+			}
+			pred, first := throughBound(pred)
+			var opq []an.Cond
+			_, f, n, ok := an.ConstFrame(paramPath(pred, first)).FuncBoolMeaning(pred, 0, nil, &opq)
+			c.CountPaths(n)
+			if !ok || len(opq) > 0 {
+				c.Unknown(nil, fname(c, fn), "domain(charset "+what+")", c.P.Pos(call.Pos()), "the rune predicate handed to strings.ContainsFunc is outside the interval fragment")
+				return
+			}
+			forced, why := impliesResult(c, fn, call, true)
+			c.Check(forced && f.Equal(want), nil, fname(c, fn), "domain(charset "+what+")", c.P.Pos(call.Pos()),
+				fmt.Sprintf("accepted only if no rune satisfies the predicate, i.e. every rune ∈ %s", f),
+				fmt.Sprintf("strings.ContainsFunc form: a rune outside %s is found ⇒ rejected: %v (%s); want every rune ∈ %s", f, forced, why, want))
+			return
+		}
 	}
 	checkLoopAccept(c, fn, subject, want, "charset "+what)
 }
@@ -358,6 +382,28 @@ func funcValue(v ssa.Value) *ssa.Function {
 		return f
 	}
 	return nil
+}
+
+// throughBound: a method value (`m.pred`) or method expression handed to a
+// higher-order function is a synthetic wrapper that forwards its parameters to
+// the method; the method itself and the index of its first forwarded
+// parameter are what a rule looks at.
+func throughBound(fn *ssa.Function) (*ssa.Function, int) {
+	if fn == nil || fn.Synthetic == "" || len(fn.Blocks) != 1 {
+		return fn, 0
+	}
+	var target *ssa.Function
+	n := 0
+	for _, in := range fn.Blocks[0].Instrs {
+		if ci, ok := in.(ssa.CallInstruction); ok {
+			n++
+			target = an.StaticCallee(ci.Common())
+		}
+	}
+	if n != 1 || target == nil || target.Signature.Recv() == nil || len(target.Params) != len(fn.Params)+len(fn.FreeVars) {
+		return fn, 0
+	}
+	return target, len(fn.FreeVars)
 }
 
 // isAllQuantifier recognises the module's generic helper
@@ -726,7 +772,15 @@ func runValExh(c *core.Ctx) {
 					}
 					an.Instrs(g, func(gin ssa.Instruction) {
 						gc, isGC := gin.(*ssa.Call)
-						if !isGC || !gc.Call.IsInvoke() || gc.Call.Method.Name() != "UnmarshalJSON" {
+						if !isGC {
+							return
+						}
+						// a generic helper instantiated for this message type calls the method statically
+						if um != nil && an.StaticCallee(&gc.Call) == um && len(gc.Call.Args) == 2 && an.Unwrap(gc.Call.Args[0]) == ssa.Value(g.Params[i]) &&
+							an.PathOfIn(gc.Call.Args[1], &hc.Call) == "p:"+parse.Params[0].Name() {
+							okParse = true
+						}
+						if !gc.Call.IsInvoke() || gc.Call.Method.Name() != "UnmarshalJSON" {
 							return
 						}
 						if an.Unwrap(gc.Call.Value) == ssa.Value(g.Params[i]) && len(gc.Call.Args) == 1 && an.PathOfIn(gc.Call.Args[0], &hc.Call) == "p:"+parse.Params[0].Name() {
@@ -758,8 +812,13 @@ func runValExh(c *core.Ctx) {
 // steer control to its true side, assuming v=false forces the bool result #0
 // of fn to be false.
 func impliesFalse(c *core.Ctx, fn *ssa.Function, v ssa.Value) (bool, string) {
+	return impliesResult(c, fn, v, false)
+}
+
+// impliesResult: the same for v = val (val=true: "v true ⇒ result false").
+func impliesResult(c *core.Ctx, fn *ssa.Function, v ssa.Value, val bool) (bool, string) {
 	fr := an.NoSubject()
-	fr.Assume = map[ssa.Value]bool{v: false}
+	fr.Assume = map[ssa.Value]bool{v: val}
 	vb := v.(ssa.Instruction).Block()
 	seen := 0
 	for _, rb := range an.ReturnBlocks(fn) {
@@ -783,8 +842,8 @@ func impliesFalse(c *core.Ctx, fn *ssa.Function, v ssa.Value) (bool, string) {
 					}
 					break
 				}
-				if cv == v && pol {
-					continue nextPath // path assumes v true
+				if cv == v && pol != val {
+					continue nextPath // path assumes the other outcome
 				}
 			}
 			seen++
@@ -797,6 +856,76 @@ func impliesFalse(c *core.Ctx, fn *ssa.Function, v ssa.Value) (bool, string) {
 	}
 	if seen == 0 {
 		return false, "no return path evaluates the check"
+	}
+	return true, ""
+}
+
+// forAllLoop: call is applied to elem = X[i] inside a loop; decide from the
+// loop's shape that i takes every position 0 … len(X)-1 and that no iteration
+// gets back to the loop header without having made the call (`continue`
+// before the check). Understood: `for _, e := range X` (go/ssa: index phi from
+// -1, tested after the increment) and `for i := 0; i < len(X); i++`.
+func forAllLoop(elem ssa.Value, call *ssa.Call) (bool, string) {
+	return forAllLoopAt(elem, call.Block())
+}
+
+func forAllLoopAt(elem ssa.Value, at *ssa.BasicBlock) (bool, string) {
+	u, ok := an.Unwrap(elem).(*ssa.UnOp)
+	if !ok || u.Op != token.MUL {
+		return false, "the validated value is not an element read"
+	}
+	ia, ok := u.X.(*ssa.IndexAddr)
+	if !ok {
+		return false, "the validated value is not a slice element"
+	}
+	h := an.LoopHeaderOf(ia.Block())
+	if h == nil {
+		return false, "element read outside a loop"
+	}
+	iff, ok := an.LastInstr(h).(*ssa.If)
+	if !ok {
+		return false, "loop header has no exit test"
+	}
+	cond, ok := iff.Cond.(*ssa.BinOp)
+	if !ok || cond.Op != token.LSS || an.PathOf(cond.Y) != "len("+an.PathOf(ia.X)+")" {
+		return false, "loop is not bounded by the length of the validated slice"
+	}
+	var ph *ssa.Phi
+	first := int64(0)
+	switch x := ia.Index.(type) {
+	case *ssa.Phi:
+		ph = x
+	case *ssa.BinOp:
+		if p2, isP := x.X.(*ssa.Phi); isP && x.Op == token.ADD {
+			if k, isK := an.ConstInt(x.Y); isK && k == 1 {
+				ph, first = p2, -1
+			}
+		}
+	}
+	if ph == nil || ph.Block() != h || cond.X != ia.Index {
+		return false, "index is not the loop's induction variable"
+	}
+	for i, pb := range h.Preds {
+		if h.Dominates(pb) {
+			nb, ok := ph.Edges[i].(*ssa.BinOp)
+			if !ok || nb.Op != token.ADD || nb.X != ssa.Value(ph) {
+				return false, "index does not advance by one"
+			}
+			if k, isK := an.ConstInt(nb.Y); !isK || k != 1 {
+				return false, "index does not advance by one"
+			}
+		} else if k, isK := an.ConstInt(ph.Edges[i]); !isK || k != first {
+			return false, "index does not start at the first element"
+		}
+	}
+	paths, ok := an.IterPaths(h, func(b *ssa.BasicBlock) bool { return len(b.Succs) == 0 }, 4096)
+	if !ok {
+		return false, "too many iteration paths"
+	}
+	for _, p := range paths {
+		if p[len(p)-1] == h && len(p) > 1 && !p.Contains(at) {
+			return false, "an iteration can go on to the next element without the check"
+		}
 	}
 	return true, ""
 }
@@ -1000,7 +1129,48 @@ func runValSlice(c *core.Ctx) {
 			}
 		})
 		if occ == nil {
-			c.Bad(nil, fname(c, m), "delegate[filters]", P.Pos(m.Pos()), "does not validate every filter")
+			// written out as a loop over the filters (in Valid or a helper): every position is
+			// visited, a failing filter forces "invalid" and "valid" is not answered from inside the loop
+			var lo *an.Occ
+			an.Region(m, nil, func(o an.Occ) {
+				cl, isCall := o.In.(*ssa.Call)
+				if !isCall || an.StaticCallee(&cl.Call) != filValid {
+					return
+				}
+				if p := o.Path(cl.Call.Args[0]); p == "recv."+row.field+"[*]" || p == "rangeval(recv."+row.field+")" {
+					o := o
+					lo = &o
+				}
+			})
+			if lo == nil {
+				c.Bad(nil, fname(c, m), "delegate[filters]", P.Pos(m.Pos()), "does not validate every filter")
+				continue
+			}
+			call := lo.In.(*ssa.Call)
+			host := call.Parent()
+			ok, why := forAllLoop(call.Call.Args[0], call)
+			if ok {
+				ok, why = impliesFalse(c, host, call)
+				for i := len(lo.Chain) - 1; i >= 0 && ok; i-- {
+					ok, why = impliesFalse(c, lo.Chain[i].Parent(), lo.Chain[i])
+				}
+			}
+			if ok {
+				if tps, okp := an.ResultPaths(host, 0, true); okp {
+					for _, tp := range tps {
+						if an.InLoop(tp.Path[len(tp.Path)-1]) {
+							ok, why = false, "the loop over the filters can answer 'valid' before all filters were examined"
+						}
+					}
+				} else {
+					ok, why = false, "too many paths"
+				}
+			}
+			c.Check(ok, nil, fname(c, m), "delegate[filters]", P.Pos(lo.Site().Pos()), "a loop applies Valid() to every filter; a failing filter ⇒ invalid", why)
+			fr := an.ConstFrame("len(recv." + row.field + ")")
+			t, _, n, okp := fr.FuncBoolMeaning(m, 0, nil, nil)
+			c.CountPaths(n)
+			c.Check(okp && t.Equal(an.Range(1, an.PosInf)), nil, fname(c, m), "domain(len filters)", P.Pos(m.Pos()), "valid only with len(filters) ∈ "+t.String(), "valid with len(filters) ∈ "+t.String()+", want [1,+∞)")
 			continue
 		}
 		call := occ.In.(*ssa.Call)
